@@ -7,6 +7,7 @@
 -/
 import CnvVerif.Model.Effects
 import CnvVerif.Lemmas.Effects
+import CnvVerif.Lemmas.EffectsExact
 import CnvVerif.Generated.EffectsConsts
 import CnvVerif.Generated.EffectsRng
 namespace CnvVerif.C10
@@ -39,6 +40,22 @@ theorem library_draw_sites_are_seeded_or_listed :
     Generated.LIBRARY_DRAW_SITES.all (fun s => s.2.2.2 ||
       Generated.RNG_TABLE_LIB.any (fun e => e.1.endsWith ("." ++ s.2.1))) = true ∧
     Generated.LIBRARY_DRAW_SITES ≠ [] := by decide +kernel
+
+/-- the analysis is exact, not only sound: it accepts a skeleton IF AND ONLY IF on every complete path through it
+    every draw comes after a constant re-seeding — a rejection always comes with a real path that draws first -/
+theorem skeleton_analysis_exact (sk : Sk) :
+    (safeSk sk false).isSome = true ↔ ∀ l, Path sk l → safeOps l false = true := by
+  constructor
+  · intro h l hp
+    obtain ⟨b', hb'⟩ := Option.isSome_iff_exists.mp h
+    exact (safeSk_sound hp false b' hb').1
+  · intro h
+    cases hs : safeSk sk false with
+    | some b' => rfl
+    | none =>
+      obtain ⟨l, hp, hu⟩ := safeSk_exact hs
+      rw [h l hp] at hu
+      cases hu
 
 /-! ### non-vacuity -/
 
